@@ -71,8 +71,8 @@ class Array(np.ndarray):
         except ValueError:
             res, r, c = _init_reshape(shape, self)
             try:
-                res[:r, :c] = self
-            except ValueError:
+                res[:r, :c] = self[:shape[0], :shape[1]]
+            except (ValueError, IndexError):
                 res[:, :] = self.collapse(shape)
             return res
 
